@@ -625,6 +625,9 @@ func (x *fnExec) autoFrame(st *State, li *loopInfo, kind string, assume bool) {
 		return
 	}
 	for _, name := range mods {
+		if name == "$fresh" {
+			continue
+		}
 		cur := st.heapGet(x.v, name, x.v.heapSorts[name])
 		goal, needed := x.frameGoal(fs, name, cur)
 		if !needed {
@@ -662,9 +665,28 @@ func (x *fnExec) havocLoop(st *State, li *loopInfo) {
 	if all {
 		x.havocAll(st)
 	} else {
-		// alloc may grow
-		x.bumpAlloc(st)
+		hasFresh := false
 		for _, name := range mods {
+			if name == "$fresh" {
+				hasFresh = true
+			}
+		}
+		if hasFresh {
+			// callees with `modifies fresh`: everything may differ at objects allocated since the loop was entered
+			oldAlloc := st.heapGet(v, "$alloc", sInt)
+			snap := st.snapshot()
+			wasUnknown := st.unknownHavoc
+			x.havocAll(st)
+			st.unknownHavoc = wasUnknown
+			st.freshEpochs[st.epoch] = &freshEpoch{snap: snap, oldAlloc: oldAlloc}
+		} else {
+			// alloc may grow
+			x.bumpAlloc(st)
+		}
+		for _, name := range mods {
+			if name == "$fresh" {
+				continue
+			}
 			st.heapHavoc(v, name, v.heapSorts[name])
 		}
 	}
@@ -913,6 +935,10 @@ func (x *fnExec) callModifies(call *ssa.CallCommon, isGo bool) ([]string, bool) 
 	}
 	var out []string
 	for _, m := range mods {
+		if strings.TrimSpace(m) == "fresh" {
+			out = append(out, "$fresh")
+			continue
+		}
 		names, all := x.modTargetHeaps(m, c)
 		if all {
 			return nil, true
